@@ -11,7 +11,9 @@ EXPLANATION = (
     "log ends (lower slice bound = number of names read from .pc/applied-patches, or 0 when it cannot be read) and the "
     "Count/UpTo goals are resolved relative to that value; the names are appended in series order by a forward loop; "
     "(R3) the 'nothing to do' decision and everything else in cmd_push is independent of verbosity (flag non-interference). "
-    "Not decided: equality of trees across different splittings (content, history)."
+    "(R4) name resolution and loading consult the disk only for names the current invocation has not touched (the in-memory "
+    "state of a file deleted, created or renamed earlier in the same push shadows the stale disk state, as a separate later "
+    "invocation would see it). Not decided: equality of trees across different splittings (content, history)."
 )
 LEVEL_NOTE = "Undecided: equality of the resulting trees for different splittings of a series."
 
@@ -148,6 +150,10 @@ def run(ck):
         ck.require(ok_hi, "C09-R2", "upper bound of Count / UpTo goals lives in the index space of the series", "last_patch: %s" % hdetail, cmd_push.where(t), ok_detail=hdetail)
     # the UpTo goal refuses an already applied patch: comparison index < first_patch guards an Err return
     # (checked as part of C17-R2)
+
+    # ---- R4: what one invocation did in memory shadows the disk, exactly as a later invocation would find it on disk ----
+    from . import c16
+    c16.r3(ck, rule="C09-R4")
 
     # ---- R3 ------------------------------------------------------------------------------------------
     bad, abort_reach = effect_tables(ck)
